@@ -591,11 +591,23 @@ class Translator:
         return found
 
     # ---------------------------------------------------------------- statements
+    def is_static(self, d):
+        """storage class `static`, also for an out-of-line definition / explicit specialization of a static member
+        function (the specifier is only on the in-class declaration it redeclares)"""
+        seen = 0
+        while d is not None and seen < 8:
+            if d.get("storageClass") == "static":
+                return True
+            prev = d.get("previousDecl")
+            d = self.decls.get(prev) or self.decl_nobody.get(prev) if prev else None
+            seen += 1
+        return False
+
     def is_mutating(self, d):
         if d["kind"] != "CXXMethodDecl":
             return False
         q = d["type"]["qualType"]
-        return not q.rstrip().endswith("const") and not d.get("storageClass") == "static"
+        return not q.rstrip().endswith("const") and not self.is_static(d)
 
     def ret_type(self, d):
         q = self._ret_type_text(d)
@@ -873,7 +885,7 @@ class Translator:
         params = [c for c in d.get("inner", []) if c.get("kind") == "ParmVarDecl"]
         env, sig = {}, []
         rid = self.owner_record(d)
-        is_method = d["kind"] in ("CXXMethodDecl", "CXXConversionDecl") and d.get("storageClass") != "static"
+        is_method = d["kind"] in ("CXXMethodDecl", "CXXConversionDecl") and not self.is_static(d)
         selfT = None
         if is_method or d["kind"] == "CXXConstructorDecl":
             if rid is None:
